@@ -2,6 +2,7 @@
 
 #include <cmath>
 #include <sstream>
+#include <stdexcept>
 
 #include "coloquinte.hpp"
 
@@ -165,6 +166,17 @@ CellOrientation cellOrientationInRow(CellRowPolarity cellPolarity,
 
 namespace {
 
+/**
+ * @brief Check that the effort is in the supported range before it is used to
+ * index any table
+ */
+int checkEffort(int effort) {
+  if (effort < 1 || effort > 9) {
+    throw std::runtime_error("Placement effort must be between 1 and 9");
+  }
+  return effort;
+}
+
 double interpolateEffort(double minVal, double maxVal, int effort,
                          int minEffort = 1, int maxEffort = 9) {
   assert(minEffort < maxEffort);
@@ -181,13 +193,13 @@ double interpolateLogEffort(double minVal, double maxVal, int effort,
 }  // namespace
 
 ColoquinteParameters::ColoquinteParameters(int effort, int seed)
-    : global(effort), legalization(effort), detailed(effort), seed(seed) {
-  if (effort < 1 || effort > 9) {
-    throw std::runtime_error("Placement effort must be between 1 and 9");
-  }
-}
+    : global(checkEffort(effort)),
+      legalization(effort),
+      detailed(effort),
+      seed(seed) {}
 
 RoughLegalizationParameters::RoughLegalizationParameters(int effort) {
+  checkEffort(effort);
   costModel = LegalizationModel::L1;
   nbSteps = 1;
   // TODO: find best parameter
@@ -209,6 +221,7 @@ RoughLegalizationParameters::RoughLegalizationParameters(int effort) {
 }
 
 PenaltyParameters::PenaltyParameters(int effort) {
+  checkEffort(effort);
   // TODO: make cutoff distance smaller at small effort
   cutoffDistance = 40.0;
   cutoffDistanceUpdateFactor = 1.0;
@@ -232,7 +245,9 @@ ContinuousModelParameters::ContinuousModelParameters(
 }
 
 GlobalPlacerParameters::GlobalPlacerParameters(int effort)
-    : continuousModel(effort), roughLegalization(effort), penalty(effort) {
+    : continuousModel(checkEffort(effort)),
+      roughLegalization(effort),
+      penalty(effort) {
   maxNbSteps = 400;
   nbInitialSteps = 0;
   nbStepsBeforeRoughLegalization = 1;
@@ -268,6 +283,7 @@ std::string GlobalPlacerParameters::toString() const {
 }
 
 DetailedPlacerParameters::DetailedPlacerParameters(int effort) {
+  checkEffort(effort);
   nbPasses = std::round(interpolateLogEffort(2.0, 8.0, effort));
   localSearchNbNeighbours = std::round(interpolateLogEffort(2.0, 16.0, effort));
   localSearchNbRows = std::round(interpolateEffort(1.0, 4.0, effort));
